@@ -11,7 +11,7 @@ def occupancy_writers(ctx: Ctx, path: str):
     """functions other than the constructor/the setter that write this access path (task start/end paths)"""
     out = []
     for e in ctx.eff.all():
-        hosts = ctx.hosts(e.node.func) if ctx.in_pool(e.node.func) else {"<outside>"}
+        hosts = ctx.hosts_of(e.node) if ctx.in_pool(e.node.func) else {"<outside>"}
         if hosts <= {"__init__", "pool_size.setter"}:
             continue
         if e.kind in ("acquire", "release") and path == e.path + "._value":
